@@ -21,6 +21,8 @@ NAMES = ["f", "_f"]
 FORMS = [
     ("q", "{M}.{N}", None), ("q", "{M}.{N}", "g"), ("q", "{M}.{N}", "_g"), ("w", "{M}"), ("q", "{M}", None), ("q", "{M}", "mm"),
     ("q", "{M}", "_mm"), ("q", "pkg.sub_a.{M}.{N}", None),
+    # relative imports through the sub-package, as the root __init__ writes them: from .sub_a.m import f [as g] / from .sub_a.m import *
+    ("q", "sub_a.{M}.{N}", None), ("q", "sub_a.{M}.{N}", "g"), ("w", "sub_a.{M}"),
 ]
 IMPORT_MODULES = ["m", "_m", "xm", "other"]
 IMPORT_NAMES = ["f", "_f", "xf"]
@@ -46,7 +48,8 @@ def _denotes(where, form, im, iname, mod, name):
     pkg = where.replace("/", ".")
     target_mod = f"pkg.sub_a.{mod}"
     if form[0] == "w":
-        resolved = [f"{pkg}.{im}", im]
+        wq = form[1].format(M=im)
+        resolved = [f"{pkg}.{wq}", wq]
         return name if target_mod in resolved else None
     q = form[1].format(M=im, N=iname)
     alias = form[2]
@@ -97,7 +100,10 @@ def reexports(sel: List[int]) -> bool:
         coincidence = "imported-qualified-name-is-a-string-suffix-of-the-declaration" if suffix else "no-string-relation-to-any-import"
         labels.append(f"private-declaration-became-public-without-reexport:{coincidence}")
     if any(not p.startswith("_") for p in public_names) and not got:
-        labels.append("reexported-under-public-name-but-private")
+        through = any(f[1].startswith("sub_a.") and _denotes(w, f, im, iname, mod, name) for w, f, im, iname in imports)
+        only_through = through and not any(not f[1].startswith("sub_a.") and (_denotes(w, f, im, iname, mod, name) or "_").startswith("_") is False
+                                           for w, f, im, iname in imports)
+        labels.append("reexported-under-public-name-but-private" + (":relative-import-through-a-sub-package" if only_through else ""))
     return judge(labels)
 
 
